@@ -1,5 +1,6 @@
 """C16 — stream framing is independent of how TCP/TLS delivers the bytes."""
 import itertools
+import radlib as R
 ID = "C16"
 LEAN_TARGETS = ["Rsp.Props.C16"]
 THEOREMS = ["Rsp.Props.C16.server_framing_depends_only_on_stream", "Rsp.Props.C16.segmentation_independent", "Rsp.Props.C16.readN_blocking",
@@ -101,6 +102,18 @@ def gen(rng, tier):
                 for k in range(min(n, 3) + 1):
                     cs.append(Case("fault %d tlsstream %s %d %s" % (k, mode, rng.choice([1, 20]), " ".join(evs)), kind="tls-fault-" + mode, cut=1, npk=n))
                     cs.append(Case("fault %d %s" % (k, script_line(mode, 0 if mode == "server" else 5, evs)), kind="tcp-fault-" + mode, cut=1, npk=n))
+    # every tier: a fixed share of streams of several whole messages, read by the TLS and TCP readers while the buffer of the k-th
+    # message cannot be allocated (whatever the random part above produced)
+    for _ in range(30 if tier == "quick" else 600):
+        # (requests, whose authenticator the sender chooses: octets 2..3 of it read as a plausible length - what a reader that lost the
+        #  first four octets of the message would take for the next header)
+        pk = [R.build(1, rng.randrange(256), R.rand_bytes(rng, 2) + bytes([0, rng.randrange(20, 64)]) + R.rand_bytes(rng, 12),
+                      [R.rand_attr(rng) for _ in range(rng.randrange(0, 4))], b"s") for _ in range(rng.randrange(2, 5))]
+        evs = ["w:" + p.hex() for p in pk] + ["e"]
+        k = rng.randrange(len(pk) + 1)
+        mode = rng.choice(["client", "client", "server"])
+        cs.append(Case("fault %d tlsstream %s %d %s" % (k, mode, rng.choice([1, 20]), " ".join(evs)), kind="tls-fault-" + mode, cut=1, npk=len(pk)))
+        cs.append(Case("fault %d %s" % (k, script_line(mode, 0 if mode == "server" else 5, evs)), kind="tcp-fault-" + mode, cut=1, npk=len(pk)))
     return cs
 
 
